@@ -470,7 +470,7 @@ func ruleNoRowDrop(p *Prog, r *Result) {
 			for _, L := range loops {
 				// does the loop index a fetched slice by its induction variable?
 				var fetched ssa.Value
-				for b := range L.Body {
+				for _, b := range orderedBlocks(fn, L.Body) {
 					for _, in := range b.Instrs {
 						ia, ok := in.(*ssa.IndexAddr)
 						if !ok {
@@ -495,7 +495,7 @@ func ruleNoRowDrop(p *Prog, r *Result) {
 				nLoops++
 				li++
 				bad := ""
-				for b := range L.Body {
+				for _, b := range orderedBlocks(fn, L.Body) {
 					for si, s := range b.Succs {
 						if L.Body[s] {
 							continue
